@@ -227,14 +227,18 @@ def setup():
     def p_pred_c(v, ctx):
         return pretty_call(ctx, type(v), *v.a, pred='c')
 
-    from prettyprinter.doc import always_break, concat as _concat, nest as _nest, HARDLINE as _HARDLINE
+    from prettyprinter.doc import always_break, group as _group, concat as _concat, nest as _nest, LINE as _LINE, \
+        SOFTLINE as _SOFTLINE
     memo = {}
 
     @register_pretty(HMemo)
     def p_memo(v, ctx):
         if 'doc' not in memo:
-            memo['doc'] = always_break(_concat([
-                'HMemo(', _nest(4, _concat([_HARDLINE, 'a=1,', _HARDLINE, 'b=2'])), _HARDLINE, ')']))
+            # a group whose Concat has a forced-break child: the break must survive every normalisation
+            memo['doc'] = _group(_concat([
+                'HMemo(',
+                always_break(_concat([_nest(4, _concat([_SOFTLINE, 'a=1,', _LINE, 'b=2'])), _SOFTLINE])),
+                ')']))
         return memo['doc']
 
     @register_pretty(HBad)
